@@ -48,6 +48,10 @@ def world(n_chr):
     W.dedup_sites(w)
     for i in range(6):
         w["reads"].append(W.read_of("tie%d_g%s" % (i, "ABC"[i % 3]), last, tie))
+    # a multi-mapped read whose winning alignment is ambiguous between two isoforms of ONE gene (isoform-level type ambiguous, gene-level
+    # type unique); the other alignment is a spliced intergenic one on another chromosome
+    w["reads"].append(W.read_of("mmg_gA", "chr1", [[2251, 2400], [2801, 2950]], polya=False))
+    w["reads"].append(W.read_of("mmg_gA", "chr2", W.exons(8000, [0, 1, 2]), polya=False, secondary=True))
     return w
 
 
